@@ -167,6 +167,23 @@ def r2_part_discovery(rep, src):
     n_cases += 1
     if res != ('raise', 'DebError') and bad is None:
         bad = 'an archive with two %s members is accepted (the format version is read from the second): more than one candidate for a part must be rejected' % INFO
+    # members whose names are not part names -- pieces, prefixes and suffixes of part names included -- are no candidates: next to a
+    # complete package they change nothing, and they do not stand in for a missing part
+    near = ['tar', 'data', 'control', 'gz', 'x', 'data.tar.g', 'ata.tar.gz', 'control.tar.gzz', 'data.tar.', '.tar.gz', 'control.tar.gz ', 'debian-binar']
+    near_bad = None
+    for extra in near:
+        n_cases += 2
+        res = build([INFO, CTRL + '.gz', DATA + '.xz', extra])
+        if (res[0] != 'ok' or res[1].get(CTRL) != ('DebControl', CTRL + '.gz') or res[1].get(DATA) != ('DebData', DATA + '.xz')) and near_bad is None:
+            near_bad = 'a complete package with the additional member %r gives %r: a member that is not a part name is not a candidate for a part' % (extra, res)
+        res = build([INFO, CTRL + '.gz', extra])
+        if res != ('raise', 'DebError') and near_bad is None:
+            near_bad = 'an archive without data part but with a member %r is %s: the member name is tested as a piece of text of the candidate names, not as one of them' % (
+                extra, 'accepted (data part wired to %r)' % (res[1].get(DATA),) if res[0] == 'ok' else 'rejected with %s' % (res[1],))
+    if near_bad:
+        rep.fail('C07.R2', f.site, 'only part names are candidates', near_bad, where=f.where)
+    else:
+        rep.ok('C07.R2', f.site, 'only part names are candidates', '%d near-miss member names next to a complete package and in place of the data part' % len(near))
     # member order is a configuration of the property: the three members in every order give the same parts
     order_bad = None
     for perm in itertools.permutations([INFO, CTRL + '.xz', DATA + '.gz']):
